@@ -10,7 +10,7 @@ from simkit import apps, core
 
 class SeqEnv:
     def __init__(self, seed: int, stacks: tuple[str, ...] = ("mem", "sqlite"), app_id: str = "simapp", defer_threads: bool = False, epoch: float | None = None, **conf: Any) -> None:
-        self.sim = core.Sim(seed, threaded=False, defer_threads=defer_threads, epoch=epoch)
+        self.sim = core.Sim(seed, threaded=False, defer_threads=defer_threads, epoch=epoch, delta=0.0)
         core.activate(self.sim)
         apps.reset_thread_context()
         self.dbs: list[str] = []
